@@ -8,6 +8,7 @@ every read of the stream, and the normal exit.          DESIGN.md 7.
 """
 
 import hashlib
+import json
 import os as _os
 import random
 import signal as _signal
@@ -222,6 +223,7 @@ def gen_plan(seed, tier, index=0, avoid=()):
     g = _Gen(rng, h, w, tier)
     shape = rng.random()
     tree = []
+    repeat = 0
     if shape < 0.15:
         nd = g.node("FullscreenWindow", [], 0)
         if not any("ctx" in it and it["ctx"] == "Input" for it in nd["body"]):
@@ -238,12 +240,18 @@ def gen_plan(seed, tier, index=0, avoid=()):
         t["body"] = g.body([nd, t], 2)
         nd["body"].insert(rng.randint(0, len(nd["body"])), t)
         tree = [nd]
-    elif shape < 0.52:
+    elif shape < 0.46:
         first = g.node("Input", [], 0)
         tree = [first]
         for _ in range(rng.randint(1, 3)):
             again = {"ctx": "Input", "id": first["id"], "args": first["args"], "body": g.body([first], 1)}
             tree.append(again)
+    elif shape < 0.52:
+        # the very same use of one object several times over, each time caught by the application when it is left
+        # by an exception ("repeated use leaks no file descriptors": the fault variants below repeat in every use)
+        first = g.node(rng.choice(("Input", "Input", "Input", "CursorAwareWindow", "Cbreak")), [], 0)
+        repeat = rng.randint(3, 5)
+        tree = [{"ctx": "Try", "id": g.new_id("y"), "body": [_fresh_fullscreen(planmod.clone(first), g)]} for _ in range(repeat)]
     elif shape < 0.64:
         outer = g.node("Input", [], 0)
         inner = g.node("Input", [outer], 1)
@@ -256,7 +264,7 @@ def gen_plan(seed, tier, index=0, avoid=()):
         for _ in range(rng.choice((1, 1, 2, 3))):
             kind = rng.choice(("Input", "Input", "FullscreenWindow", "CursorAwareWindow", "Cbreak", "Nonblocking", "Termmode"))
             tree.append(g.node(kind, [], 0))
-    if rng.random() < 0.35:
+    if rng.random() < 0.35 and not repeat:
         # an object is used a second time - in surroundings that differ from those of its first use (another
         # nesting depth, tty attributes or status flags changed in between): what it saved the first time is stale
         found = []
@@ -283,11 +291,11 @@ def gen_plan(seed, tier, index=0, avoid=()):
                 tree.append(wrap)
             if rng.random() < 0.4:
                 tree.insert(len(tree) - 1, {"op": "toggle_echo"})
-    if rng.random() < 0.25:
+    if rng.random() < 0.25 and not repeat:
         # between two uses the application itself flips O_NONBLOCK on the stream (only outside every context:
         # what a context should restore when the flag is changed under it is not defined)
         tree.insert(rng.randint(0, len(tree)), {"op": "toggle_nonblock"})
-    if rng.random() < 0.3 and tree:
+    if rng.random() < 0.3 and tree and not repeat:
         after = [g.node(rng.choice(("Input", "Input", "Cbreak", "Nonblocking", "CursorAwareWindow")), [], 0)]
         if rng.random() < 0.5 and any(n.get("ctx") == "Input" for n in tree):
             first = [n for n in tree if n.get("ctx") == "Input"][0]
@@ -308,7 +316,7 @@ def gen_plan(seed, tier, index=0, avoid=()):
            "app_main": rng.random() < 0.8,
            "pre_lines": rng.randint(0, h),
            "out_buffer": rng.choice(("none", "line", "block", "block"))}
-    return {"prop": PROP, "seed": seed, "cfg": cfg, "tree": tree, "crash": None, "enumerate": True}
+    return {"prop": PROP, "seed": seed, "cfg": cfg, "tree": tree, "crash": None, "enumerate": True, "repeat": repeat}
 
 
 # ------------------------------------------------------------------------------------------
@@ -474,6 +482,24 @@ def _variants(p, info):
             q = planmod.clone(p)
             q["crash"] = {"eio_at_send": j, "eio_read": k}      # the k-th read of the stream inside that request
             out.append(q)
+    rep = p.get("repeat") or 0
+    if rep and len(p["tree"]) == rep and npoints % rep == 0:
+        # the same fault in every one of the identical uses
+        per = npoints // rep
+        _, sends = _count_points(p)
+        nsend = len(sends) // rep if len(sends) % rep == 0 else 0
+        for k in range(per):
+            q = planmod.clone(p)
+            q["crash"] = {"at_rel": k, "kind": "exc" if k % 2 == 0 else "base", "every_use": True}
+            out.append(q)
+        for j in [j for j in sorted(set(info["blocked_sends"])) if nsend and j < nsend]:
+            q = planmod.clone(p)
+            q["crash"] = {"sigint_at_send_rel": j, "delay": 0.0001, "every_use": True}
+            out.append(q)
+        for j in [j for j in sorted(set(info["reading_sends"])) if nsend and j < nsend]:
+            q = planmod.clone(p)
+            q["crash"] = {"eio_at_send_rel": j, "eio_read": 1, "every_use": True}
+            out.append(q)
     for q in out:
         q["enumerate"] = False
     return out
@@ -511,6 +537,40 @@ def run_plan(p, keep_log=False):
     return res
 
 
+def _fullscreen_ids(items, out):
+    for it in items:
+        if "ctx" in it:
+            if it["ctx"] == "FullscreenWindow":
+                out.append(it["id"])
+            _fullscreen_ids(it["body"], out)
+    return out
+
+
+def _rename(items, mapping):
+    for it in items:
+        if it.get("id") in mapping:
+            it["id"] = mapping[it["id"]]
+        if it.get("on") in mapping:
+            it["on"] = mapping[it["on"]]
+        if "ctx" in it:
+            _rename(it["body"], mapping)
+
+
+def _fresh_fullscreen(node, g):
+    """a FullscreenWindow object can be entered only once (its blessed fullscreen() context is made in __init__):
+    every copy of a body gets window objects of its own"""
+    ids = _fullscreen_ids([node], [])
+    _rename([node], dict((i, g.new_id("f")) for i in ids))
+    return node
+
+
+def _use_key(body, how):
+    """what a use of an object consisted of, for 'the same use again' (one-shot window objects by position)"""
+    b = planmod.clone(body)
+    _rename(b, dict((i, "F%d" % n) for n, i in enumerate(_fullscreen_ids(b, []))))
+    return (json.dumps(b, sort_keys=True), how)
+
+
 def _violate(res, name, step, detail):
     if res["violation"] is None:
         res["violation"] = {"invariant": name, "step": step, "detail": detail}
@@ -538,7 +598,13 @@ class _Exec:
         self.info = {"blocked_sends": [], "reading_sends": [], "reads_in_send": {}}
         self.callbacks = {}
         self.uses = {}            # object id -> completed enter/exit cycles
-        self.kept_fds = set()     # descriptors an object kept open after its first use
+        self.owned = {}           # object id -> descriptors it opened (in any use or operation) and still holds
+        self.ever_owned = set()   # every descriptor number that was ever attributed to one of the objects
+        self.counts = {}          # object id -> number of descriptors held after each completed use
+        self.growths = {}         # object id -> uses that repeated the previous use exactly and still held more
+        self.last_use = {}        # object id -> (body, how it was left) of the previous use
+        self.frames = []          # open contexts, outermost first: {"id", "excused"}
+        self.use_base = self.use_send_base = 0      # first crash point / request of the current Try part
 
     # ---- state snapshots ------------------------------------------------------------------
     def snap(self):
@@ -547,7 +613,7 @@ class _Exec:
                 "flags": self.s.tty.flags,
                 "sigint": k.sig.handlers.get(_signal.SIGINT),
                 "wakeup_fd": k.sig.wakeup_fd,
-                "fds": [fd for fd in k.open_fds() if fd not in self.trigger_fds],
+                "fds": [fd for fd in k.open_files() if fd not in self.trigger_fds],
                 "cursor_visible": t.cursor_visible,
                 "active": t.active,
                 "modes": (t.autowrap, t.top, t.bot == t.h - 1, t.pen),
@@ -555,56 +621,113 @@ class _Exec:
                 "main_cursor": (t.r, t.c, t.pending) if t.active == "main" else t.saved["main"][:3] if t.saved["main"] else None,
                 "scrollback": len(t.scrollback)}
 
-    def compare(self, before, node, how):
+    LIGHT = ("attrs", "flags", "sigint", "wakeup_fd", "cursor_visible", "active", "modes")
+
+    def snap_light(self):
+        k, t = self.kernel, self.term
+        return {"attrs": [list(x) if isinstance(x, list) else x for x in self.s.tty.attrs],
+                "flags": self.s.tty.flags,
+                "sigint": k.sig.handlers.get(_signal.SIGINT),
+                "wakeup_fd": k.sig.wakeup_fd,
+                "fds": [fd for fd in k.open_files() if fd not in self.trigger_fds],
+                "cursor_visible": t.cursor_visible,
+                "active": t.active,
+                "modes": (t.autowrap, t.top, t.bot == t.h - 1, t.pen)}
+
+    def attribute_op(self, target, pre):
+        """an operation addressed to the object `target` has just run.  Descriptors it opened are that object's; and
+        where it ran inside contexts entered later than its object, state it changed is not something those
+        inner contexts' entering changed - restoring it is the business of the object it was addressed to"""
+        post = self.snap_light()
+        new = [fd for fd in post["fds"] if fd not in pre["fds"]]
+        if new:
+            self.owned.setdefault(target, set()).update(new)
+            self.ever_owned.update(new)
+        idx = [i for i, f in enumerate(self.frames) if f["id"] == target]
+        if idx and idx[-1] < len(self.frames) - 1:
+            changed = [c for c in self.LIGHT if (pre[c] is not post[c] if c == "sigint" else pre[c] != post[c])]
+            if changed:
+                self.world.probe("outer_object_changed_state_inside_inner_context")
+                for f in self.frames[idx[-1] + 1:]:
+                    f["excused"].update(changed)
+
+    def compare(self, before, node, how, excused=()):
         after = self.snap()
         kind = node["ctx"]
         where = {"context": kind, "id": node["id"], "left_by": how, "open_outside": list(self.open_kinds)}
         fds_after = [fd for fd in after["fds"]]
-        if after["attrs"] != before["attrs"]:
+        if after["attrs"] != before["attrs"] and "attrs" not in excused:
             _violate(self.res, "tty_attributes_not_restored", self.point,
                      dict(where, before=before["attrs"], after=after["attrs"]))
-        if after["flags"] != before["flags"]:
+        if after["flags"] != before["flags"] and "flags" not in excused:
             _violate(self.res, "status_flags_not_restored", self.point,
                      dict(where, before=before["flags"], after=after["flags"]))
-        if after["sigint"] is not before["sigint"]:
+        if after["sigint"] is not before["sigint"] and "sigint" not in excused:
             _violate(self.res, "sigint_handler_not_restored", self.point,
                      dict(where, before=_name(before["sigint"]), after=_name(after["sigint"])))
-        if after["wakeup_fd"] != before["wakeup_fd"]:
+        if after["wakeup_fd"] != before["wakeup_fd"] and "wakeup_fd" not in excused:
             _violate(self.res, "wakeup_fd_not_restored", self.point,
                      dict(where, before=before["wakeup_fd"], after=after["wakeup_fd"]))
-        # "repeated use leaks no file descriptors": an object may keep descriptors it opened on its first use
-        # (e.g. a wake-up pipe created once and re-used); from its second use on, nothing more may stay open
+        # "repeated use leaks no file descriptors".  An object may hold descriptors of its own for as long as it
+        # lives - created on its first use or lazily on a later one, closed and replaced as it likes; what it may
+        # not do is hold more and more of them.  Judged where nothing else can explain growth: a use that repeats
+        # the previous use of the same object exactly (same body, left the same way) and after which the object
+        # holds more descriptors than before it - for the second time (once can be lazy creation that the first of
+        # two identical bodies happened not to need, e.g. because type-ahead was still waiting).
+        oid = node["id"]
         delta = [fd for fd in fds_after if fd not in before["fds"]]
         gone = [fd for fd in before["fds"] if fd not in fds_after]
-        uses = self.uses.get(node["id"], 0) + 1
-        self.uses[node["id"]] = uses
-        if gone:
-            _violate(self.res, "closed_foreign_descriptor", self.point, dict(where, closed=gone))
-        if delta and uses >= 2:
-            _violate(self.res, "fd_leak", self.point, dict(where, use_number=uses, still_open=delta))
-        elif delta:
-            self.kept_fds |= set(delta)
+        uses = self.uses.get(oid, 0) + 1
+        self.uses[oid] = uses
+        others = set()
+        for k_, v_ in self.owned.items():
+            if k_ != oid:
+                others |= v_
+        mine = self.owned.setdefault(oid, set())
+        new = [fd for fd in delta if fd not in others]
+        mine.update(new)
+        self.ever_owned.update(new)
+        mine.intersection_update(fds_after)
+        foreign = [fd for fd in gone if fd not in self.ever_owned]
+        if foreign:
+            _violate(self.res, "closed_foreign_descriptor", self.point, dict(where, closed=foreign))
+        use_key = _use_key(node["body"], how)
+        rep = self.last_use.get(oid) == use_key
+        self.last_use[oid] = use_key
+        hist = self.counts.setdefault(oid, [])
+        if hist and rep and len(mine) > hist[-1]:
+            self.growths.setdefault(oid, []).append(uses)
+            if len(self.growths[oid]) >= 2:
+                _violate(self.res, "fd_leak", self.point,
+                         dict(where, use_number=uses, held_after_each_use=hist + [len(mine)], still_open=sorted(mine)))
+        hist.append(len(mine))
         if kind in ("FullscreenWindow", "CursorAwareWindow"):
-            if after["modes"] != before["modes"]:
+            # modes the property does not list (autowrap, scroll region, pen): as found, or the terminal's default
+            ok = tuple(a == b or a == d for a, b, d in zip(after["modes"], before["modes"], (True, 0, True, (None, None, 0))))
+            if not all(ok) and "modes" not in excused:
                 _violate(self.res, "terminal_mode_left_changed", self.point,
                          dict(where, before="autowrap=%s scroll_top=%s full_region=%s pen=%s" % before["modes"],
                               after="autowrap=%s scroll_top=%s full_region=%s pen=%s" % after["modes"]))
-            if before["cursor_visible"] and not after["cursor_visible"]:
+            if before["cursor_visible"] and not after["cursor_visible"] and "cursor_visible" not in excused:
                 # (inside an enclosing window that hides the cursor, what an inner window leaves is the outer
                 # one's business: restore what entering changed)
                 _violate(self.res, "cursor_left_hidden", self.point, where)
-            if after["active"] != before["active"]:
+            if after["active"] != before["active"] and "active" not in excused:
                 _violate(self.res, "alternate_screen_not_left", self.point, dict(where, active=after["active"]))
         if kind == "FullscreenWindow" and after["active"] == "main":
             if after["main"] != before["main"] or after["scrollback"] != before["scrollback"]:
                 _violate(self.res, "main_screen_touched", self.point,
                          dict(where, diff=gen.diff_grid(before["main"], after["main"])))
 
+    def _send_hit(self, what, j):
+        c = self.crash
+        return c.get(what) == j or (what + "_rel" in c and j - self.use_send_base == c[what + "_rel"])
+
     # ---- crash points ------------------------------------------------------------------
     def crash_point(self):
         k = self.point
         self.point += 1
-        if self.crash.get("at") == k:
+        if self.crash.get("at") == k or ("at_rel" in self.crash and k - self.use_base == self.crash["at_rel"]):
             self.world.fault("crash_after_prefix")
             self.world.probe("crash_after_prefix")
             self.world.log.add("crash", k, self.crash["kind"], list(self.open_kinds))
@@ -619,12 +742,14 @@ class _Exec:
             if it.get("ctx") == "Try":
                 # the application catches whatever leaves this part and carries on: contexts are used
                 # again after one of them was left by an exception
+                self.use_base, self.use_send_base = self.point, self.send_no
                 try:
                     self.run_items(it["body"])
                 except (CrashBase, CrashExc, KeyboardInterrupt, OSError) as e:
                     self.world.log.add("caught", type(e).__name__)
                     self.world.probe("carried_on_after_exception")
-                    self.crash = {}
+                    if not self.crash.get("every_use"):
+                        self.crash = {}
             elif "ctx" in it:
                 self.run_ctx(it)
             else:
@@ -703,6 +828,8 @@ class _Exec:
                 raise _Stop()
             self.vals[node["id"]] = val
             self.open_kinds.append(kind)
+            frame = {"id": node["id"], "excused": set()}
+            self.frames.append(frame)
             if len(self.open_kinds) >= 3:
                 self.world.probe("depth_ge_3")
             exc = None
@@ -717,6 +844,7 @@ class _Exec:
                 exc = e
                 how = type(e).__name__
             self.open_kinds.pop()
+            self.frames.pop()
             try:
                 if exc is None:
                     obj.__exit__(None, None, None)
@@ -731,7 +859,7 @@ class _Exec:
                                                                "exception": "%s: %s" % (type(e2).__name__, e2)})
                 raise _Stop()
             self.world.log.add("left", kind, node["id"], how)
-            self.compare(before, node, how)
+            self.compare(before, node, how, frame["excused"])
             if self.res["violation"]:
                 raise _Stop()
             if exc is not None:
@@ -748,6 +876,15 @@ class _Exec:
         del self.kernel.sig.pending[:]
 
     def do_op(self, it):
+        if "on" not in it:
+            return self._do_op(it)
+        pre = self.snap_light()
+        try:
+            return self._do_op(it)
+        finally:
+            self.attribute_op(it["on"], pre)
+
+    def _do_op(self, it):
         world, kernel, s = self.world, self.kernel, self.s
         op = it["op"]
         if op == "noop":
@@ -782,14 +919,14 @@ class _Exec:
             key = (it["on"], it["kind"])
             if key not in self.callbacks:
                 from curtsies import events
-                fds0 = set(kernel.open_fds())
+                fds0 = set(kernel.open_files())
                 if it["kind"] == "threadsafe":
                     cb = inp.threadsafe_event_trigger(_Ev)
                 elif it["kind"] == "event":
                     cb = inp.event_trigger(_Ev)
                 else:
                     cb = inp.scheduled_event_trigger(events.ScheduledEvent)
-                new = set(kernel.open_fds()) - fds0
+                new = set(kernel.open_files()) - fds0
                 if new:          # descriptors a trigger factory opens belong to the Input object, whichever factory
                     self.trigger_fds |= new
                     world.probe("trigger_pipe_created")
@@ -807,6 +944,9 @@ class _Exec:
         data = bytes.fromhex(it["arrive"])
         if data and (s.tty.attrs[3] & _termios.ICANON):
             data += b"\n"       # (the scenario put the tty back into canonical mode: input is delivered by lines)
+        elif data and s.tty.attrs[6][_termios.VMIN] > len(data) and s.tty.attrs[6][_termios.VTIME] == 0:
+            # (the scenario set MIN > 1: the tty counts as readable only once MIN characters are there)
+            data += b"x" * (s.tty.attrs[6][_termios.VMIN] - len(data))
         if data:
             if it["arrive_delay"] is None:
                 kernel.arrive(s.fd, data)
@@ -818,7 +958,7 @@ class _Exec:
         blocked0 = world.probes.get("select_blocked", 0)
         reads0 = s.tty.read_count
         nb_before = bool(s.tty.flags & _os.O_NONBLOCK)
-        if self.crash.get("sigint_at_send") == j:
+        if self._send_hit("sigint_at_send", j):
             # SIGINT at an arbitrary moment of the blocked request: KeyboardInterrupt where the default
             # handler is in force, a SigIntEvent / nothing under the other handler configurations
             delay = self.crash.get("delay", 0.0001)
@@ -829,7 +969,7 @@ class _Exec:
                     delay = min(delay, 0.9 * it["arrive_delay"])
             world.after(delay, "signal", int(_signal.SIGINT))
             world.fault("sigint_during_blocked_request")
-        if self.crash.get("eio_at_send") == j:
+        if self._send_hit("eio_at_send", j):
             kernel.read_faults.setdefault(s.fd, {})[s.tty.read_count + self.crash.get("eio_read", 1)] = ("eio",)
         try:
             try:
@@ -857,7 +997,7 @@ class _Exec:
             self._withdraw_signals()
             if not isinstance(e, OSError):
                 raise
-            if self.crash.get("eio_at_send") == j:
+            if self._send_hit("eio_at_send", j):
                 world.probe("eio_in_read")
                 self.res["states"].add("%s|eio|%d" % (">".join(self.open_kinds), self.p["cfg"]["app_main"]))
                 self.res["crashed_inside"] = True
@@ -979,7 +1119,11 @@ def _run_one(p, keep_log):
         res["info"] = ex.info
         if not res["violation"] and not res["error"]:
             last = ex.snap()
-            last["fds"] = [fd for fd in last["fds"] if fd not in ex.kept_fds]
+            held = set()
+            for v_ in ex.owned.values():
+                held |= v_
+            last["fds"] = [fd for fd in last["fds"] if fd not in held]
+            first["fds"] = [fd for fd in first["fds"] if fd in last["fds"] or fd not in ex.ever_owned]
             if getattr(ex, "toggles", 0) % 2:
                 first = dict(first, flags=first["flags"] ^ _os.O_NONBLOCK)      # (the application's own doing)
             if getattr(ex, "echo_toggles", 0) % 2:
